@@ -285,6 +285,8 @@ impl Request {
         // O-DROP500: an unanswered request gets exactly one 500, printed and flushed, on its own writer ...
         final(self).answered(),
         !old(self).answered() ==> print_attempted(500, old(self).is_head(), false),
+        // ... and the connection thread that waits for "answered" (https, lib.rs) is told, as after respond()
+        !old(self).answered() && old(self).notify_chan() is Some ==> notified_responded(old(self).notify_chan()->Some_0),
         // ... an answered one is left alone
         old(self).answered() ==> *final(self) == *old(self),
         final(self).same_head(old(self)),
